@@ -12,7 +12,7 @@ def run(ctx, seed_offset=0):
     quick = ctx['tier'] == 'quick'
     c2 = dict(ctx, seed=ctx['seed'] + seed_offset)
     progs = W.run_harness(c2, ['-random', '420' if quick else '2500', '-seqlen', '3' if quick else '5', '-maxh', '6', '-maxr', '12'], 'c08_%d' % seed_offset)
-    good = W.evaluate(c2, res, progs, 'c08_violations', 'c08_%d' % seed_offset, 'C08', WHAT)
+    good = W.evaluate(c2, res, progs, 'c08_lviolations', 'c08_%d' % seed_offset, 'C08', WHAT)
     rnd = [p for p in good if p['kind'] == 'random']
     for p in rnd[:1] + rnd[7:8]:
         res.sample(W.describe(p))
